@@ -1,6 +1,7 @@
 import AutoVerif.Spec.C18
 import AutoVerif.Lemmas.C18
 import AutoVerif.Lemmas.C18Trace
+import AutoVerif.Lemmas.C18X
 import AutoVerif.Gen.Consts
 /-
 C18 — Close stops everything a plugin started; a panicking flow is contained.
@@ -867,5 +868,425 @@ theorem trace_sound_v2 {evs : Array Ev} {items : List V2.VItem} (h : V2.vtraceOk
 
 /-- the cool-down the model's `coolElapsed` stands for is the regenerated constant -/
 theorem cooldown_is_ten_seconds : Gen.panicRestartWaitNs = 10 * 1000000000 := by decide
+
+/-! ### the recoverer driven directly: a context that ends, Start while running, Start again
+
+`service.NewRecoverer` is public.  The three things its caller can do and the plugin never does are the labels
+`ctxCancel`, `startRefused`, `startAgain` of `xstep`, and two arms of the code that only a cancelled context enables
+(`sCtxDone`: recoverable.go `case <-ctx.Done()`; `gCtxSeen`: the wrapped service's own `case <-ctx.Done()`). -/
+
+/-- on the labels of `Core`, the extended system IS the core system -/
+theorem xstep_core_is_stepCore (x : XCore) (l : CLabel) :
+    xstep x (.core l) = (stepCore x.c l).map fun c' => { x with c := c' } := rfl
+
+/-- … and as long as the context is live and the caller does none of its three extra things (the plugin: the context is
+    `context.Background()`, every recoverer is started once), every run of the extended system is a run of `stepCore`:
+    all theorems above are theorems about the plugin's recoverers -/
+theorem xrun_projects_to_core : ∀ (ls : List XLabel) (x x' : XCore), x.ctxDone = false → (∀ l ∈ ls, l.callerOnly = false) →
+    xrun x ls = some x' → ∃ cls, runC x.c cls = some x'.c := xrun_project
+
+/-- the two context arms need a cancelled context -/
+theorem context_arms_need_cancel (x : XCore) (h : x.ctxDone = false) : xstep x .sCtxDone = none ∧ xstep x .gCtxSeen = none := by
+  simp [xstep, ctxArmEnabled, h]
+
+/-- `case <-ctx.Done()` of serviceStart: the flag is cleared and Start returns; nothing else changes — in particular a
+    service loop that ignores the context (coordinator, runner) keeps running, and a later Close is refused ("not running") -/
+theorem ctx_done_stops_watcher (x x' : XCore) (h : xstep x .sCtxDone = some x') :
+    x.ctxDone = true ∧ x'.c.spc = .done ∧ x'.c.running = false ∧ x'.c.gs = x.c.gs ∧ x'.c.nRun = x.c.nRun ∧
+    (stepCore x'.c .closeCall).bind (fun c => stepCore c .cLoad) = (stepCore x'.c .closeCall).map (fun c => { c with cpc := .ret, cres := .notRunning }) := by
+  simp only [xstep] at h
+  split at h
+  · rename_i he
+    simp only [Option.some.injEq] at h
+    subst h
+    simp only [ctxArmEnabled, Bool.and_eq_true] at he
+    refine ⟨he.1, rfl, rfl, rfl, rfl, ?_⟩
+    simp only [stepCore]
+    split <;> simp [stepCore]
+  · simp at h
+
+/-- Start while a Start is in progress: refused iff the flag is set, and nothing changes — no second serviceStart, no
+    second service goroutine -/
+theorem start_while_running_refused (x : XCore) (h1 : x.c.spc ≠ .init) (h2 : x.c.spc ≠ .done) :
+    (x.c.running = true → xstep x .startRefused = some x) ∧ (x.c.running = false → xstep x .startRefused = none) ∧
+    ∀ x', xstep x .startRefused = some x' → x' = x := by
+  refine ⟨?_, ?_, ?_⟩
+  · intro hr; simp [xstep, flagStartRefuses, hr, h1, h2]
+  · intro hr; simp [xstep, flagStartRefuses, hr]
+  · intro x' h
+    simp only [xstep] at h
+    split at h <;> simp at h
+    exact h.symm
+
+private def xOneClose : List XLabel := oneClose.map .core ++ [.ctxCancel, .sCtxDone, .gCtxSeen, .startRefused, .cSvcCloseErr]
+
+private def KXof (latched honours : Bool) : List Nat := exploreX xOneClose 4000 [encodeX (xsettled latched honours)] []
+
+private def PX (x : XCore) : Bool :=
+  (!xterminal x || decide (x.c.cpc = .idle) || decide (x.c.cpc = .ret)) &&
+  (!xterminal x || !x.ctxDone || (decide (x.c.spc = .done) && !x.c.running)) &&
+  (!xterminal x || !x.ctxDone || !x.honours || (decide (x.c.nRun = 0) && decide (x.c.nStarting = 0) && decide (x.c.nCall = 0))) &&
+  (!xterminal x || !decide (x.c.cpc = .ret) || decide (x.c.cres = .notRunning) ||
+     (decide (x.c.spc = .done) && !x.c.running && decide (x.c.nRun = 0) && decide (x.c.nStarting = 0) && decide (x.c.nCall = 0))) &&
+  !x.c.dropped && decide (x.c.gs ≤ 1)
+
+private def KXok (latched honours : Bool) : Bool :=
+  closedKX xOneClose (KXof latched honours) && (KXof latched honours).contains (encodeX (xsettled latched honours)) &&
+  (KXof latched honours).all (fun k => PX (decodeX k))
+
+set_option maxRecDepth 100000 in
+private theorem KX_facts_ticker : KXok false true = true := by decide +kernel
+set_option maxRecDepth 100000 in
+private theorem KX_facts_coordinator : KXok false false = true := by decide +kernel
+set_option maxRecDepth 100000 in
+private theorem KX_facts_store : KXok true true = true := by decide +kernel
+
+/-- A CONTEXT THAT ENDS STOPS THE RECOVERER, AND CLOSE STILL WORKS.  From a settled recoverer of any of the three service
+    kinds whose restart behaviour the model states exactly (start-once honouring the context: time ticker; start-once
+    ignoring it: coordinator; restartable: result store), for EVERY schedule — the context cancelled at any point, one Close
+    at any point (before, after, racing the cancellation), panics of the service goroutine, cool-downs, Start calls while
+    running — and every state reached:
+     (i)   the system never rests with Close half-way (no deadlock);
+     (ii)  at rest with the context cancelled, serviceStart HAS returned and the flag is cleared;
+     (iii) … and a service that honours the context has left its loop (none is starting or about to be started either);
+     (iv)  at rest after a Close that was not refused by the recoverer ("not running") — whether it returned nil or the error
+           of a wrapped service whose own Close met a failing collaborator and stopped all the same (`cSvcCloseErr`: the
+           metadata store and an Unsubscribe error) — serviceStart has returned, the flag is cleared, no service loop is left;
+     (v)   Close never gives its signal up; there is never more than one recoverableStart / service goroutine.
+    NOT claimed — and false, see `ctx_cancel_racing_close_strands_sender`: that no goroutine at all is left. -/
+theorem ctx_cancel_stops_watcher_and_service (latched honours : Bool) (hk : latched = true → honours = true) :
+    ∀ sched x, SchedX xOneClose sched → xrun (xsettled latched honours) sched = some x →
+      (xterminal x = true → x.c.cpc = .idle ∨ x.c.cpc = .ret) ∧
+      (xterminal x = true → x.ctxDone = true → x.c.spc = .done ∧ x.c.running = false) ∧
+      (xterminal x = true → x.ctxDone = true → x.honours = true → x.c.nRun = 0 ∧ x.c.nStarting = 0 ∧ x.c.nCall = 0) ∧
+      (xterminal x = true → x.c.cpc = .ret → x.c.cres ≠ .notRunning → x.c.spc = .done ∧ x.c.running = false ∧ x.c.nRun = 0 ∧ x.c.nStarting = 0 ∧ x.c.nCall = 0) ∧
+      x.c.dropped = false ∧ x.c.gs ≤ 1 := by
+  intro sched x hs hr
+  have hf : KXok latched honours = true := by
+    cases latched <;> cases honours
+    · exact KX_facts_coordinator
+    · exact KX_facts_ticker
+    · exact absurd (hk rfl) (by decide)
+    · exact KX_facts_store
+  simp only [KXok, Bool.and_eq_true] at hf
+  obtain ⟨⟨hclosed, h1⟩, hall⟩ := hf
+  have hin : InKX (KXof latched honours) (xsettled latched honours) :=
+    inKX_of_roundtrip h1 (by cases latched <;> cases honours <;> decide)
+  have h := allKX hall (closedKX_sound hclosed sched _ x hin hs hr)
+  simp only [PX, Bool.and_eq_true, Bool.or_eq_true, Bool.not_eq_true', decide_eq_true_eq, decide_eq_false_iff_not] at h
+  obtain ⟨⟨⟨⟨⟨p1, p2⟩, p3⟩, p4⟩, p5⟩, p6⟩ := h
+  refine ⟨?_, ?_, ?_, ?_, p5, p6⟩
+  · intro ht
+    rcases p1 with (h | h) | h
+    · simp [ht] at h
+    · exact Or.inl h
+    · exact Or.inr h
+  · intro ht hc
+    rcases p2 with (h | h) | h
+    · simp [ht] at h
+    · simp [hc] at h
+    · exact h
+  · intro ht hc hh
+    rcases p3 with ((h | h) | h) | h
+    · simp [ht] at h
+    · simp [hc] at h
+    · simp [hh] at h
+    · exact ⟨h.1.1, h.1.2, h.2⟩
+  · intro ht hc hres
+    rcases p4 with ((h | h) | h) | h
+    · simp [ht] at h
+    · exact absurd hc h
+    · exact absurd h hres
+    · exact ⟨h.1.1.1.1, h.1.1.1.2, h.1.1.2, h.1.2, h.2⟩
+
+/-- … and what a cancellable context costs: Close racing the cancellation can strand the service goroutine in its send.
+    Close has passed the running check and stopped the service; the context ends and serviceStart takes that arm; Close's
+    stop signal goes into the (now receiver-less) channel; the service goroutine's `chStop <- nil` blocks for ever.  Close
+    returned nil, no service loop is left — and one `recoverableStart` goroutine never ends.  Impossible with a context
+    that never ends (`close_stops_all_partial` via `xrun_projects_to_core`): the plugin passes `context.Background()`. -/
+theorem ctx_cancel_racing_close_strands_sender :
+    (xrun (xsettled false true) [.core .closeCall, .core .cLoad, .core .cSvcClose, .core .gStopSeen, .ctxCancel, .sCtxDone,
+        .core .cWaitDone, .core .cSignal]).map
+      (fun x => (xterminal x, x.c.cpc, x.c.cres, x.c.spc)) = some (true, .ret, .ok, .done) ∧
+    (xrun (xsettled false true) [.core .closeCall, .core .cLoad, .core .cSvcClose, .core .gStopSeen, .ctxCancel, .sCtxDone,
+        .core .cWaitDone, .core .cSignal]).map
+      (fun x => (x.c.running, x.c.nRun, x.c.nSendNil, x.c.buf)) = some (false, 0, 1, some .cancelled) := by
+  refine ⟨by decide, by decide⟩
+
+/-! #### scripts: caller operations at rest (what the harness drives on the real recoverer, family "svc")
+
+`xscript` = each operation followed by the system running to rest (`xsettle`).  The results and the goroutines alive after
+every operation are compared with the real code case by case; here: what the model says for the scripts that reach the
+code the plugin never reaches, and that `specScript` accepts it. -/
+
+private def resOf (r : List (XRes × Alive) × XCore) : List (XRes × Nat × Nat × Nat) :=
+  r.1.map fun (a, b) => (a, b.serviceStart, b.service, b.inflight)
+
+private def resOf' (r : List (BRes × Nat) × Bare) : List (BRes × Nat) := r.1
+
+/-- Start while running (recoverable.go `if m.running.Load() { return ErrServiceAlreadyStarted }`): refused, nothing
+    changes, and the Close that follows leaves nothing — for every service kind -/
+theorem script_start_while_running (latched honours : Bool) :
+    resOf (xscript scriptFuel (xfresh latched honours) [.start, .start, .start, .close]) =
+      [(.accepted, 1, 1, 0), (.refused, 1, 1, 0), (.refused, 1, 1, 0), (.closeOk, 0, 0, 0)] := by
+  cases latched <;> cases honours <;> decide
+
+/-- the context of Start ends (recoverable.go `case <-ctx.Done()`): Start returns; a service that honours the context ends
+    with it, one that ignores it runs on and the Close that follows is refused by the recoverer ("not running"); Start is
+    accepted again afterwards — the start-once service refuses to start again (its error is logged and ignored), the
+    restartable one runs again — and the final Close leaves nothing in all three cases -/
+theorem script_context_ends_then_restart :
+    resOf (xscript scriptFuel (xfresh false true) [.start, .cancel, .close, .start, .close]) =
+      [(.accepted, 1, 1, 0), (.none, 0, 0, 0), (.closeNotRunning, 0, 0, 0), (.accepted, 1, 0, 0), (.closeOk, 0, 0, 0)] ∧
+    resOf (xscript scriptFuel (xfresh false false) [.start, .cancel, .close, .start, .close]) =
+      [(.accepted, 1, 1, 0), (.none, 0, 1, 0), (.closeNotRunning, 0, 1, 0), (.accepted, 1, 1, 0), (.closeOk, 0, 0, 0)] ∧
+    resOf (xscript scriptFuel (xfresh true true) [.start, .cancel, .close, .start, .close]) =
+      [(.accepted, 1, 1, 0), (.none, 0, 0, 0), (.closeNotRunning, 0, 0, 0), (.accepted, 1, 1, 0), (.closeOk, 0, 0, 0)] := by
+  refine ⟨by decide, by decide, by decide⟩
+
+/-- a panic out of the service's Start, then two Close calls inside the cool-down: the second finds the first one's stop
+    signal in the channel (recoverable.go: the send attempt fails, the drain attempt takes the obsolete message, the next
+    attempt succeeds) — for the start-once kinds it returns the service's "already stopped", for the restartable kind it
+    waits until the restarted Start has taken the latched close signal; when the cool-down is over nothing is left -/
+theorem script_two_closes_in_cooldown :
+    resOf (xscript scriptFuel (xfresh false true) [.start, .panic, .close, .close, .coolDown]) =
+      [(.accepted, 1, 1, 0), (.none, 1, 0, 0), (.closeOk, 1, 0, 0), (.closeRefused, 1, 0, 0), (.none, 0, 0, 0)] ∧
+    resOf (xscript scriptFuel (xfresh true true) [.start, .panic, .close, .close, .coolDown]) =
+      [(.accepted, 1, 1, 0), (.none, 1, 0, 0), (.closeOk, 1, 0, 0), (.blocked, 1, 0, 1), (.none, 0, 0, 0)] ∧
+    -- the second Close goes through Close's inner select: full, drained, sent
+    (xrun (xsettled false true) ([.gPanic, .gSendStopped, .closeCall, .cLoad, .cSvcClose, .cWaitDone, .cSignal,
+        .closeAgain, .cLoad, .cSvcClose, .cSignal, .cDrain, .cSignal].map .core)).map (fun x => (x.c.cpc, x.c.cres, x.c.buf, x.c.spc)) =
+      some (.ret, .svcRefused, some .cancelled, .cool) := by
+  refine ⟨by decide, by decide, by decide⟩
+
+/-- a panic out of a start-once service's Start: one restart attempt after the cool-down, refused by the service
+    ("already started": recoverable.go logs it, `chStop <- err`, serviceStart ignores it), no further attempt; Close then
+    leaves nothing -/
+theorem script_panic_restart_attempt_once :
+    resOf (xscript scriptFuel (xfresh false true) [.start, .panic, .coolDown, .coolDown, .close]) =
+      [(.accepted, 1, 1, 0), (.none, 1, 0, 0), (.none, 1, 0, 0), (.none, 1, 0, 0), (.closeOk, 0, 0, 0)] := by decide
+
+/-- the oracle accepts what the model says for these scripts -/
+theorem specScript_model_scripts :
+    specScript true true (xscriptObs false true [.start, .start, .start, .close]) true = true ∧
+    specScript true true (xscriptObs false true [.start, .cancel, .close, .start, .close]) true = true ∧
+    specScript true true (xscriptObs false false [.start, .cancel, .close, .start, .close]) false = true ∧
+    specScript true true (xscriptObs true true [.start, .cancel, .close, .start, .close]) true = true ∧
+    specScript true true (xscriptObs false true [.start, .panic, .close, .close]) true = true ∧
+    specScript true true (xscriptObs true true [.start, .panic, .close, .close]) true = true ∧
+    specScript true true (xscriptObs false true [.start, .cancel]) true = true ∧
+    specScript true true (xscriptObs false false [.start, .cancel]) false = true := by
+  refine ⟨by decide, by decide, by decide, by decide, by decide, by decide, by decide, by decide⟩
+
+private def mkObs (ops : List OpObs) (ss sv inf process goodTicks : Nat) : ScriptObs :=
+  { survived := true, hung := false, closesReturned := true, process := process, goodTicks := goodTicks, ops := ops,
+    finalServiceStart := ss, finalService := sv, finalInflight := inf }
+
+/-- … and rejects the observations a changed recoverer would give: a second Start that is let in (two watchers, the Close
+    that follows stops one), a Start that outlives its context, something left after a Close that returned nil, an observer
+    called for a tick the getter did not deliver, a service loop that vanished on its own, a context-honouring service that
+    outlives its context, a block subscription that outlives the store's loop, a Close turned away by a running service -/
+theorem specScript_rejects :
+    specScript true true (mkObs [⟨"start", "pending", 1, 1, 0⟩, ⟨"start", "pending", 2, 2, 0⟩, ⟨"close", "ok", 1, 1, 0⟩] 1 1 0 0 0) = false ∧
+    specScript true true (mkObs [⟨"start", "pending", 1, 1, 0⟩, ⟨"cancel", "", 1, 0, 0⟩] 1 0 0 0 0) = false ∧
+    specScript true true (mkObs [⟨"start", "pending", 1, 1, 0⟩, ⟨"close", "ok", 1, 0, 0⟩] 1 0 0 0 0) = false ∧
+    specScript false true (mkObs [⟨"start", "pending", 0, 1, 0⟩, ⟨"close", "ok", 0, 0, 0⟩] 0 0 0 3 2) = false ∧
+    specScript true true (mkObs [⟨"start", "pending", 1, 1, 0⟩, ⟨"wait", "", 1, 0, 0⟩, ⟨"close", "ok", 1, 0, 0⟩] 0 0 0 0 0) = false ∧
+    specScript true true (mkObs [⟨"start", "pending", 1, 1, 0⟩, ⟨"cancel", "", 0, 1, 0⟩] 0 1 0 0 0) true = false ∧
+    specScript false true { mkObs [⟨"start", "pending", 0, 1, 0⟩, ⟨"cancel", "nil", 0, 0, 0⟩] 0 0 0 0 0 with finalSubscribed := 1 } true = false ∧
+    specScript false true (mkObs [⟨"start", "pending", 0, 1, 0⟩, ⟨"start", "refused", 0, 1, 0⟩, ⟨"close", "refused", 0, 1, 0⟩] 0 1 0 0 0) = false ∧
+    specScript false true (mkObs [⟨"close", "panicked!", 0, 0, 0⟩] 0 0 0 0 0) = false := by
+  refine ⟨by decide, by decide, by decide, by decide, by decide, by decide, by decide, by decide, by decide⟩
+
+/-- an accepted log of a directly driven recoverer is a run of the extended model from the recoverer as constructed -/
+theorem trace_sound_x {latched honours : Bool} {cancels : Nat} {evs : Array Ev} {items : List ItemX}
+    {closeErrOk : Bool} (h : traceOkX latched honours cancels evs items closeErrOk = true) :
+    ∃ s ls, replayX evs (tinitX latched honours cancels closeErrOk) items = some s ∧ xrun (xfresh latched honours) ls = some s.x := by
+  unfold traceOkX at h
+  simp only [Bool.and_eq_true] at h
+  cases hr : replayX evs (tinitX latched honours cancels closeErrOk) items with
+  | none => simp [hr] at h
+  | some s =>
+    obtain ⟨ls, hls⟩ := replayX_path items _ s hr
+    refine ⟨s, ls, rfl, ?_⟩
+    have hx : (tinitX latched honours cancels closeErrOk).x = xfresh latched honours := by
+      cases latched <;> cases honours <;> rfl
+    rw [hx] at hls
+    exact hls
+
+/-- not vacuous: the log recorded on the real recoverer around a time ticker — Start, the context cancelled, Close
+    ("not running"), Start again (the ticker refuses: "already started"), Close — is accepted with one cancellation and
+    rejected with none -/
+example :
+    let evs : Array Ev := #[⟨"start.idle", 0, 0, 0, 0⟩, ⟨"start.spawned", 0, 0, 1, 1⟩, ⟨"ss.stored", 0, 0, 2, 2⟩, ⟨"rs.enter", 1, 0, 3, 0⟩,
+      ⟨"ss.ctxdone", 0, 0, 4, 3⟩, ⟨"rs.returned", 1, 0, 5, 4⟩, ⟨"rs.sent", 1, 0, 6, 6⟩, ⟨"close.notrunning", 2, 0, 7, 0⟩,
+      ⟨"start.idle", 3, 0, 8, 0⟩, ⟨"start.spawned", 3, 0, 9, 9⟩, ⟨"ss.stored", 3, 0, 10, 10⟩, ⟨"ss.recv", 3, 0, 11, 11⟩,
+      ⟨"rs.enter", 4, 0, 12, 0⟩, ⟨"rs.returned", 4, 1, 13, 13⟩, ⟨"rs.sent", 4, 1, 14, 14⟩, ⟨"ss.recv", 3, 1, 15, 12⟩,
+      ⟨"close.running", 5, 0, 16, 0⟩, ⟨"close.svc", 5, 0, 17, 17⟩, ⟨"close.sent", 5, 0, 18, 18⟩, ⟨"ss.recv", 3, 3, 19, 16⟩, ⟨"ss.cleared", 3, 0, 20, 20⟩]
+    let items : List ItemX := [.ev 0, .ev 1, .ev 2, .hid .sSel, .ev 3, .hid .gCall, .hid .gStarted, .cancel, .ev 4, .gctx, .ev 5, .ev 6, .ev 7,
+      .ev 8, .ev 9, .ev 10, .ev 11, .hid .sSel, .ev 12, .hid .gCall, .ev 13, .ev 14, .ev 15, .hid .sSel, .ev 16, .hid .cSvcClose, .hid .cWaitDone,
+      .ev 17, .ev 18, .ev 19, .ev 20]
+    traceOkX false true 1 evs items = true ∧ traceOkX false true 0 evs items = false := by
+  decide
+
+/-! ### the wrapped services on their own: the guards the recoverer relies on -/
+
+/-- Start while running is refused by every kind that has a guard and leaves the service as it was -/
+theorem bare_start_while_running_refused (b : Bare) (h : b.kind = .once ∨ b.kind = .flag)
+    (hrun : (b.kind = .once → b.st ≠ .unstarted) ∧ (b.kind = .flag → b.running = true)) :
+    bapply b .start = (b, .refused) := by
+  rcases h with h | h
+  · simp [bapply, h, hrun.1 h]
+  · simp [bapply, h, flagStartRefuses, hrun.2 h]
+
+/-- a Close that succeeds ends every loop of a guarded kind; a Close of a service that is not running is refused and
+    changes nothing -/
+theorem bare_close (b : Bare) (h : b.kind = .once ∨ b.kind = .flag) :
+    ((bapply b .close).2 = .closeOk → (bapply b .close).1.loops = 0) ∧
+    ((bapply b .close).2 = .closeRefused → (bapply b .close).1 = b) := by
+  rcases h with h | h
+  · simp only [bapply, h]
+    by_cases h1 : b.st = .started <;> simp [h1]
+  · simp only [bapply, h]
+    by_cases h1 : flagCloseRefuses b.running = true
+    · simp [h1]
+    · by_cases h2 : b.selfClose = true ∧ b.unsubFails = true
+      · by_cases h3 : b.unsubStops = true <;> simp [h1, h2, h3]
+      · simp [h1, h2]
+
+/-- when the context of Start ends, a loop that honours it ends, one that does not keeps running -/
+theorem bare_context_ends (b : Bare) (hl : b.loops ≠ 0) :
+    (b.honours = true → (bapply b .cancel).1.loops = 0) ∧ (b.honours = false → bapply b .cancel = (b, .pending)) := by
+  constructor
+  · intro hh
+    simp only [bapply, hl, hh]
+    by_cases h1 : b.selfClose = true <;> by_cases h2 : b.unsubFails = true <;> by_cases h3 : b.unsubStops = true <;> simp [h1, h2, h3]
+  · intro hh; simp [bapply, hl, hh]
+
+/-- BEFORE the fix: the metadata store whose `Unsubscribe` fails — Close reports the error and changes nothing: the loop
+    keeps running, the flag stays set — whereas with a working `Unsubscribe` Close ends the loop -/
+theorem bare_unsubscribe_failure_keeps_loop_old :
+    resOf' (bscript (bfresh .flag true true true false) [.start, .close, .close]) =
+      [(BRes.pending, 1), (BRes.closeError, 1), (BRes.closeError, 1)] ∧
+    resOf' (bscript (bfresh .flag true true false) [.start, .close, .close]) =
+      [(BRes.pending, 1), (BRes.closeOk, 0), (BRes.closeRefused, 0)] := by
+  refine ⟨by decide, by decide⟩
+
+/-- … after "fix: metadata store: a failing Unsubscribe no longer leaves the Start loop running after Close": Close reports
+    the error and the loop ends all the same (a second Close finds the store not running); likewise when the store closes
+    itself because the context of its Start ended -/
+theorem bare_unsubscribe_failure_stops_loop :
+    resOf' (bscript (bfresh .flag true true true) [.start, .close, .close]) =
+      [(BRes.pending, 1), (BRes.closeError, 0), (BRes.closeRefused, 0)] ∧
+    resOf' (bscript (bfresh .flag true true true) [.start, .cancel, .close]) =
+      [(BRes.pending, 1), (BRes.returnedErr, 0), (BRes.closeRefused, 0)] := by
+  refine ⟨by decide, by decide⟩
+
+/-- a tick spawns a `Process` goroutine iff the ticker has a getter and the getter returned no error -/
+theorem tick_spawns_iff (getter nilFn err nilErr : Nat) :
+    tickSpawns getter nilFn err nilErr = true ↔ getter ≠ nilFn ∧ err = nilErr := by
+  simp [tickSpawns, tickSkipped]
+
+/-! ### constructors that fail, close loops that meet an error -/
+
+/-- whichever step of the OCR3 / OCR2 constructors fails, no service has been started -/
+theorem ctor_failure_starts_nothing (a b c d : Bool) (n : Nat) :
+    ((newPluginOutcome a b c n).1 = .failed → (newPluginOutcome a b c n).2 = 0) ∧
+    ((newReportingPluginOutcome a b c d n).1 = .failed → (newReportingPluginOutcome a b c d n).2 = 0) ∧
+    ((newReportingPluginOutcomeV2 a b c).1 = .failed → (newReportingPluginOutcomeV2 a b c).2 = 0) ∧
+    ((newPluginOutcome a b c n).1 = .built ↔ (a = false ∧ b = false ∧ c = false)) ∧
+    ((newReportingPluginOutcome a b c d n).1 = .built ↔ (a = false ∧ b = false ∧ c = false ∧ d = false)) ∧
+    ((newReportingPluginOutcomeV2 a b c).1 = .built ↔ (a = false ∧ b = false ∧ c = false)) := by
+  cases a <;> cases b <;> cases c <;> cases d <;> simp [newPluginOutcome, newReportingPluginOutcome, newReportingPluginOutcomeV2]
+
+/-- the Close loops close EVERY sub-service and report every error; a loop that stopped at the first error would leave the
+    services behind it running -/
+theorem closeAll_closes_every_service (errs : List Bool) :
+    (closeAll errs).1 = errs.length ∧ (closeAll errs).2 = (errs.filter id).length ∧
+    (closeUntilError [true, false]).1 < (closeAll [true, false]).1 := by
+  refine ⟨rfl, rfl, by decide⟩
+
+/-- the oracle with the constructor and close-fault clauses: holds exactly when nothing is reported -/
+theorem specFull_iff_ok (cs : Case) (o : Obs) : specFull cs o = true ↔ classifyFull cs o = .base .ok := by
+  have h := spec_iff_ok cs o
+  simp only [specFull, classifyFull]
+  cases h1 : ctorOk cs o <;> cases h2 : isUnsubLeak cs o <;> cases h3 : o.ctorFailed <;> simp_all
+
+/-- the two known findings keep their meaning under the extended oracle: they are reported only when the base oracle
+    reports them and neither a constructor fault nor the Unsubscribe leak is at hand (for every base verdict `v`, in
+    particular `closeBeforeRunning` and `closeBeforeServiceStart`) -/
+theorem known_findings_unchanged (cs : Case) (o : Obs) (v : Verdict) :
+    classifyFull cs o = .base v ↔ (ctorOk cs o = true ∧ isUnsubLeak cs o = false ∧ classify cs o = v) := by
+  simp only [classifyFull]
+  cases h1 : ctorOk cs o <;> cases h2 : isUnsubLeak cs o <;> cases h3 : o.ctorFailed <;> simp_all
+
+private theorem predictFull_ctor (fx : Fixes) (u : Bool) (cs : Case) (t n k : Nat) (b : Bool) (p : Nat) (hc : cs.closeFault = "") (hf : cs.ctorFault ≠ "") :
+    predictFull fx u cs t n k b p = { predict fx cs t n k b p with
+      ctorFailed := decide ((ctorPredict cs).1 = .failed), ctorLeft := if (ctorPredict cs).1 = .failed then (ctorPredict cs).2 else 0 } := by
+  simp [predictFull, hc, hf]
+
+/-- a constructor that fails: for each of the eight faults the harness injects the model says "error, no instance, nothing
+    started", and the oracle accepts the model's prediction for the whole case (the factory builds a working instance
+    afterwards, which is closed once start-up has quiesced) -/
+theorem specFull_model_ctor_fail (fx : Fixes) (u : Bool) (cs : Case) (t n k : Nat) (ht : 0 < t) (hc : cs.closeFault = "")
+    (hf : (cs.family = "" ∧ (cs.ctorFault = "bad-json" ∨ cs.ctorFault = "bad-probability" ∨ cs.ctorFault = "probability-range" ∨
+                               cs.ctorFault = "nodes-range" ∨ cs.ctorFault = "subscribe")) ∨
+          (cs.family = "v2" ∧ (cs.ctorFault = "bad-json" ∨ cs.ctorFault = "coordinator-factory" ∨ cs.ctorFault = "observer-factory"))) :
+    (ctorPredict cs).1 = .failed ∧ (ctorPredict cs).2 = 0 ∧ specFull cs (predictFull fx u cs t n k true 0) = true := by
+  have hne : cs.ctorFault ≠ "" := by
+    rcases hf with ⟨_, h | h | h | h | h⟩ | ⟨_, h | h | h⟩ <;> simp [h]
+  have hp : (ctorPredict cs).1 = .failed ∧ (ctorPredict cs).2 = 0 := by
+    rcases hf with ⟨hfam, h | h | h | h | h⟩ | ⟨hfam, h | h | h⟩ <;>
+      simp [ctorPredict, hfam, h, newReportingPluginOutcome, newReportingPluginOutcomeV2, newPluginOutcome]
+  refine ⟨hp.1, hp.2, ?_⟩
+  have hs := (spec_model_clean_close fx cs t n k ht).2.1
+  rw [predictFull_ctor fx u cs t n k true 0 hc hne]
+  simp only [specFull, ctorOk, isUnsubLeak, hc, hp.1, hp.2]
+  simp [spec] at hs ⊢
+  simpa [Obs.leak, lingerOk, progressOk, progressDue, panicOk, panicClauseApplies] using hs
+
+private theorem closeAll_one (n : Nat) (hn : 0 < n) : closeAll ((List.range n).map fun i => decide (i = 0)) = (n, 1) := by
+  simp only [closeAll, List.length_map, List.length_range, Prod.mk.injEq, true_and]
+  induction n with
+  | zero => omega
+  | succ k ih =>
+    cases k with
+    | zero => decide
+    | succ j =>
+      have := ih (by omega)
+      rw [List.range_succ, List.map_append, List.filter_append, List.length_append, this]
+      simp
+
+/-- a collaborator's close step fails — the OCR2 coordinator's Close, or the block source's Unsubscribe on the tree as it
+    is now: the model says Close reports exactly one error and everything stops all the same, and the oracle accepts that -/
+theorem specFull_model_close_fault (fx : Fixes) (cs : Case) (t n k : Nat) (ht : 0 < t) (hs : 0 < cs.services) (hc : cs.ctorFault = "")
+    (hf : cs.closeFault = "v2-coordinator-close" ∨ cs.closeFault = "unsubscribe") :
+    (predictFull fx true cs t n k true 0).errOther = 1 ∧ (predictFull fx true cs t n k true 0).leakedService = 0 ∧
+    specFull cs (predictFull fx true cs t n k true 0) = true := by
+  have hne : cs.closeFault ≠ "" := by rcases hf with h | h <;> simp [h]
+  have hq := predict_nopanic_late fx cs t n k ht
+  have hca := closeAll_one cs.services hs
+  have hp : predictFull fx true cs t n k true 0 = { quietObs cs t 0 0 with errOther := 1 } := by
+    simp [predictFull, hc, hne, hq, hca, quietObs]
+  rw [hp]
+  refine ⟨rfl, rfl, ?_⟩
+  simp [specFull, ctorOk, hc, isUnsubLeak, spec, quietObs, panicOk, progressOk, progressDue, lingerOk, Obs.leak, panicClauseApplies]
+
+/-- BEFORE "fix: metadata store: a failing Unsubscribe no longer leaves the Start loop running after Close" the model says:
+    one error, and the metadata store's loop is left running — also after a second Close; the oracle reports exactly that -/
+theorem specFull_reports_unsub_leak_old (fx : Fixes) (cs : Case) (t n k : Nat) (ht : 0 < t) (hs : 0 < cs.services) (hc : cs.ctorFault = "")
+    (hf : cs.closeFault = "unsubscribe") :
+    (predictFull fx false cs t n k true 0).leakedService = 1 ∧
+    specFull cs (predictFull fx false cs t n k true 0) = false ∧
+    classifyFull cs (predictFull fx false cs t n k true 0) = .unsubLeak := by
+  have hq := predict_nopanic_late fx cs t n k ht
+  have hca := closeAll_one cs.services hs
+  have hp : predictFull fx false cs t n k true 0 =
+      { quietObs cs t 0 0 with errOther := 1, leakedService := 1, ticking := true, bubbleEnded := false, after2ndService := 1 } := by
+    simp [predictFull, hc, hf, hq, hca, quietObs]
+  rw [hp]
+  refine ⟨rfl, ?_, ?_⟩
+  · simp [specFull, isUnsubLeak, hf, quietObs]
+  · simp [classifyFull, ctorOk, hc, isUnsubLeak, hf, quietObs]
 
 end AutoVerif.C18
